@@ -39,7 +39,8 @@ def build_layout(box, rnd, srcrel):
     src = os.path.join(proj, srcrel)
     names = ["a.rs", ".hidden.rs", "UPPER.RS", "c.rsx", "d.rs.bak", "noext", "e.Rs", "notes.txt", "two.dots.rs",
              "deep/x/y/z/b.rs", "deep/x/other.rsx", "dir.rs/inner.rs", "dir.rs/inner.txt", "sp ace/s p.rs", "uni-é/ü.rs",
-             ".hidden_dir/inner.rs", ".hidden_dir/.also_hidden.rs", "d1/d2/d3/d4/d5/d6/d7/d8/d9/d10/very_deep.rs", "target/debug/build.rs"]
+             ".hidden_dir/inner.rs", ".hidden_dir/.also_hidden.rs", "proto.v2/client.rs", "conf.d/x.rs", "v1.0/y.rs", "a.b.c/z.rs",
+             "trailingdot./w.rs", "..weird/q.rs", "pkg.rsx/inside.rs", "name.bak/deep/er.rs", "d1/d2/d3/d4/d5/d6/d7/d8/d9/d10/very_deep.rs", "target/debug/build.rs"]
     # extensions that are substrings / superstrings / permutations of the configured ones (passed in by the caller)
     for e in getattr(build_layout, "exts", []):
         near = {e[1:], e[:-1], e + e, e + "~", "a" + e, e[::-1], e.upper() if e.upper() != e else e.lower(), e + "."}
@@ -50,6 +51,10 @@ def build_layout(box, rnd, srcrel):
     extra_depth = rnd.randrange(0, 3)
     for k in range(extra_depth):
         names.append("/".join("n%d" % j for j in range(k + 2)) + "/leaf%d.rs" % k)
+    # another project's configuration and lock inside the tree (a vendored crate): ordinary out-of-scope files
+    for n_, d_ in (("Breadlog.lock", core.lock_text(3)), ("vendor/Breadlog.yaml", core.make_config()), ("vendor/Breadlog.lock", core.lock_text(2)),
+                   ("vendor/Breadlog.lock.tmp", core.lock_text(1))):
+        box.write(os.path.join(srcrel, n_), d_)
     # in-scope files far below the source directory ("at any depth")
     for depth in (16, 17, 18, 33, 64, 120):
         names.append("/".join("p%d" % j for j in range(depth)) + "/at_depth_%d.rs" % depth)
